@@ -115,6 +115,11 @@ pub fn handle_watch(conn: &mut Connection, parts: &[RespFrame], storage: &Arc<St
                     continue;
                 }
                 
+                // WATCH is answered without passing through the command dispatch, so the lazy
+                // expiry that precedes every command is done here: a key that is already past
+                // its deadline is absent when the watch begins, it does not "change" later
+                storage.expire_if_due(conn.db_index, &key);
+                
                 // Register the watch with storage engine
                 match storage.register_watch(conn.db_index, &key) {
                     Ok(baseline_counter) => {
